@@ -22,6 +22,8 @@ pub struct World {
 pub enum Special {
     Dir,
     Symlink(String),
+    /// a named pipe in place of the file: `files[path]` is delivered once, to the first reader
+    Fifo,
 }
 
 impl World {
